@@ -239,7 +239,9 @@ func (c *Conn) processEncryptedClientHello(h *clientHello, isRetry bool) (*clien
 		if ctx == nil && len(h.echExt.Enc) > 0 {
 			echPriv, err := hpke.ParseHPKEPrivateKey(cfg.KEM, key.PrivateKey)
 			if err != nil {
-				return nil, err
+				// A key this package cannot use (another KEM, a malformed
+				// private key) opens nothing; the other keys still count.
+				continue
 			}
 			info := append([]byte("tls ech\x00"), key.Config...)
 			if ctx, err = hpke.SetupReceipient(cfg.KEM, h.echExt.CipherSuite.KDF, h.echExt.CipherSuite.AEAD, echPriv, info, h.echExt.Enc); err != nil {
